@@ -17,7 +17,7 @@
 #include <stdlib.h>
 
 enum { F_PAGE_RETURNED, F_REALLOC_SMALL_TO_LARGE, F_REALLOC_LARGE_TO_SMALL, F_REALLOC_SHRINK_IN_PLACE, F_REALLOC_WITHIN_BIN, F_CALLOC, F_ALL_BINS,
-       F_LARGE_BLOCKS, F_DRAINED_TO_FIVE_PAGES, F_CROSS_THREAD_RELEASE, F_MANY_PAGES, F_CHUNK_REUSED, F_REALLOC_FROM_NULL, F_REALLOC_TO_ZERO };
+       F_LARGE_BLOCKS, F_DRAINED_TO_FIVE_PAGES, F_CROSS_THREAD_RELEASE, F_MANY_PAGES, F_CHUNK_REUSED, F_REALLOC_FROM_NULL, F_REALLOC_TO_ZERO, F_SECOND_INSTANCE };
 
 #define PAGE 4096u
 
@@ -702,6 +702,27 @@ static void thr_case(void) {
         mon_violation("C03:new-failed", "aws_small_block_allocator_new returned NULL");
         return;
     }
+    /* a second, single-threaded instance created while the multi-threaded one is alive and used by this thread only:
+     * per-instance configuration (locking mode, bins, counters) must not leak from one instance into the other */
+    struct aws_allocator *sib = NULL;
+    struct actor sa;
+    memset(&sa, 0, sizeof(sa));
+    size_t sib_ops = 0;
+    if (mon_chance(r, 1, 2)) {
+        sib = aws_small_block_allocator_new(mon_chance(r, 1, 2) ? mon_guard_allocator_full() : mon_guard_allocator(), false);
+        if (!sib) {
+            mon_violation("C03:new-failed", "aws_small_block_allocator_new (second instance) returned NULL");
+        } else {
+            sa.sba = sib;
+            sa.cap = 200;
+            sa.live = malloc(sa.cap * sizeof(struct blk));
+            mon_rng_seed(&sa.rng, mon_rand(r), 0xC03, 99);
+            sa.next_id = ((uint64_t)99 << 40) | (mon_rand(r) & 0xffffff);
+            sib_ops = 200 + (size_t)mon_below(r, 1800);
+            mon_flag(F_SECOND_INSTANCE);
+        }
+    }
+    mon_fp(sib_ops);
     s_nreg = 0;
     pthread_barrier_init(&W.barrier, NULL, (unsigned)W.n);
     for (int t = 0; t < W.n; ++t) {
@@ -728,11 +749,40 @@ static void thr_case(void) {
             exit(2);
         }
     }
+    if (sib) {
+        for (size_t k = 0; k < sib_ops && mon_violations() < 4; ++k) {
+            unsigned pick = (unsigned)mon_below(&sa.rng, 100);
+            if (pick < 50) {
+                do_acquire(&sa);
+            } else if (pick < 62) {
+                do_realloc(&sa);
+            } else if (sa.nlive) {
+                do_release_at(&sa, (size_t)mon_below(&sa.rng, sa.nlive));
+            }
+        }
+    }
     for (int t = 0; t < W.n; ++t) {
         pthread_join(th[t], NULL);
     }
     perturb_end();
     mon_watchdog_disarm();
+    if (sib) {
+        verify_all(&sa, "second instance, after the threads finished");
+        size_t want = sum_classes(&sa);
+        size_t got = aws_small_block_allocator_bytes_active(sib);
+        if (got != want) {
+            mon_violation("C03:bytes-active", "second (single-threaded) instance: bytes_active = %zu, live small blocks account for %zu", got, want);
+        }
+        while (sa.nlive) {
+            do_release_at(&sa, sa.nlive - 1);
+        }
+        if (aws_small_block_allocator_bytes_active(sib) != 0) {
+            mon_violation("C03:bytes-active-after-drain", "second instance: everything released but bytes_active = %zu", aws_small_block_allocator_bytes_active(sib));
+        }
+        aws_small_block_allocator_destroy(sib);
+        free(sa.live);
+        mon_count("thr_second_instance_operations", sib_ops);
+    }
     uint64_t sent = 0, total_ops = 0, bins_used = 0;
     for (int t = 0; t < W.n; ++t) {
         bins_used |= W.w[t].a.bins_seen;
@@ -770,7 +820,8 @@ int main(int argc, char **argv) {
     aws_common_library_init(aws_default_allocator());
     static const char *names[] = {"page_returned_to_os", "realloc_small_to_large", "realloc_large_to_small", "realloc_shrink_in_place", "realloc_within_bin", "calloc",
                                   "all_five_bins_used", "blocks_above_512_from_parent", "drained_to_at_most_five_pages", "block_released_by_another_thread",
-                                  "twelve_or_more_pages_reserved", "freed_chunk_reused", "realloc_from_null", "realloc_to_zero"};
+                                  "twelve_or_more_pages_reserved", "freed_chunk_reused", "realloc_from_null", "realloc_to_zero",
+                                  "second_single_threaded_instance_alive_during_threaded_phase"};
     for (int i = 0; i < (int)(sizeof(names) / sizeof(names[0])); ++i) {
         mon_flag_name(i, names[i]);
     }
